@@ -62,6 +62,11 @@ pub use self::types::QoS;
 #[cfg(kani)]
 #[path = "../../weave/src/payload.rs"]
 mod payload;
+// io.rs: the response re-sequencing state, extracted item by item (see lib/weave.py gen_io_state)
+#[cfg(kani)]
+mod io_state {
+    include!("../../weave/gen_io_state.rs");
+}
 
 pub mod v3 {
     #[path = "../../../weave/src/v3/codec/mod.rs"]
